@@ -1,11 +1,12 @@
 // corr_c17: correspondence + property oracle for C17 (DNS resolver and its LRU cache).
 //
 // Engines:
-//   lru        cache.BoundedCache vs the pointer-level Lean model (SSV.Model.Lru) vs a reference map
-//   dnslookup  dns.Resolver with a scripted TCP upstream over netio.NewPipe under testing/synctest
-//              (fake clock) vs SSV.Model.Dns vs the statement oracle (oracle.go)
-//   dnsconc    concurrent lookups with held upstream answers under synctest vs the two-phase Lean model
-//   dnsudp     the UDP path on loopback in real time (wrong source, wrong id, silence, truncation -> TCP)
+//
+//	lru        cache.BoundedCache vs the pointer-level Lean model (SSV.Model.Lru) vs a reference map
+//	dnslookup  dns.Resolver with a scripted TCP upstream over netio.NewPipe under testing/synctest
+//	           (fake clock) vs SSV.Model.Dns vs the statement oracle (oracle.go)
+//	dnsconc    concurrent lookups with held upstream answers under synctest vs the two-phase Lean model
+//	dnsudp     the UDP path on loopback in real time (wrong source, wrong id, silence, truncation -> TCP)
 package main
 
 import (
@@ -142,6 +143,30 @@ func run(t *testing.T, o *common.Options, rep *common.Report) error {
 		}
 	}
 	r := common.NewRng(o.Seed)
+	// ---- the real 20 s lookup timeout: UDP silent throughout, TCP answers; no caller deadline. Started now,
+	// runs beside the other engines (it only sleeps), collected at the end.
+	starved := starvedCase()
+	var starvedModel string
+	if drv != nil {
+		mo, err := drv.Batch(starved.modelLines())
+		if err != nil {
+			return err
+		}
+		starvedModel = canonUDPModel(mo[1])
+	}
+	type starvedRes struct {
+		obs udpObs
+		pan any
+	}
+	starvedCh := make(chan starvedRes, 1)
+	go func() {
+		ob, pan := runUDPImpl(starved)
+		starvedCh <- starvedRes{ob, pan}
+	}()
+	defer func() {
+		sr := <-starvedCh
+		reportUDP(starved, sr.obs, sr.pan, starvedModel, rep)
+	}()
 	// ---- known finding F11: directed probe, every run ----
 	rep.FindingsProbed["F11:servfail-overrides-smaller-ttl"] = false
 	if err := evalDNSCase(t, f11Probe(), o, rep, drv); err != nil {
